@@ -155,7 +155,7 @@ def run(ck):
         gens = []
         for pos in range(rng.choice([1, 1, 2, 3])):
             how = rng.choice(["exit1", "exit1", "missing", "sigkill", "reply"])
-            sp = rng.choice(["abs", "rel", "rel", "dot", "dslash", "updown", "bslash", "bslash", "ctl", "ctl", "astral", "astral"])
+            sp = rng.choice(["abs", "rel", "rel", "dot", "dslash", "updown", "bslash", "bslash", "ctl", "ctl", "astral", "astral", "cwd", "cwd"])
             gens.append(("gen-%s-%d" % (how, pos), rng.choice([None, "k=v"]), dc.enc_reply([]) if how == "reply" else None, sp))
         if rng.random() < 0.4:
             # the same generator named twice (other arguments): two generators, two reports if it fails
@@ -166,7 +166,7 @@ def run(ck):
         fmeta.append((gens, ffmt))
     of = [dc.parse_run(x) for x in dc.run_all(flines)]
     ck.stream("failing-generator-path", description="1..3 generators that fail (exit status, missing executable, killed) or work, their paths written absolutely, relative to the working directory, with a '.' or '..' component, "
-              "a doubled slash or through a directory with backslashes, control characters or characters beyond the basic plane in its name, some named twice, in JSON and in human format: every failing generator is reported once, by the path as written")
+              "a doubled slash, absolutely below the working directory, or through a directory with backslashes, control characters or characters beyond the basic plane in its name, some named twice, in JSON and in human format: every failing generator is reported once, by the path as written")
     for (gens, ffmt), x, line in zip(fmeta, of, flines):
         ck.count("failing-generator-path", line, kind=ffmt + ":" + "+".join(sorted({g[3] for g in gens})))
         if x is None:
@@ -179,11 +179,12 @@ def run(ck):
         for nm, _, reply, sp in sorted(set((g[0], None, g[2], g[3]) for g in gens), key=lambda g: g[0]):
             times = sum(1 for g in gens if g[0] == nm)
             tail = {"abs": "/gens/%s'" % nm, "rel": "'../gens/%s'" % nm, "dot": "/gens/./%s'" % nm, "dslash": "/gens//%s'" % nm, "updown": "/gens/../gens/%s'" % nm, "bslash": "/gens/odd\\dir \\x/%s'" % nm,
-                    "ctl": "/gens/c\x01t\x9bl\x7f/%s'" % nm, "astral": "/gens/a\U0001F600\U0010FFFFz/%s'" % nm}[sp]
+                    "ctl": "/gens/c\x01t\x9bl\x7f/%s'" % nm, "astral": "/gens/a\U0001F600\U0010FFFFz/%s'" % nm,
+                    "cwd": "/w/tools/%s'" % nm}[sp]      # an absolute path below the working directory, where no program is: reported as written, not relative to the directory
             hits = [m_ for m_ in msgs if "run code-generator" in m_ and tail in m_ and (sp != "abs" or not any(t in m_ for t in ("/./", "//", "/../", "\\")))]
-            if len(hits) != (times if reply is None else 0):
+            if len(hits) != (times if (reply is None or sp == "cwd") else 0):
                 ck.violation("failing-generator-path", "failing-generator-not-named-as-written", " ".join("%s (%s)" % (g[0], g[3]) for g in gens),
-                             ("%d error(s) naming %s as written (%s)" % (times, nm, tail)) if reply is None else "no error about %s" % nm, str(msgs)[:400], signature={"spelling": sp})
+                             ("%d error(s) naming %s as written (%s)" % (times, nm, tail)) if (reply is None or sp == "cwd") else "no error about %s" % nm, str(msgs)[:400], signature={"spelling": sp})
     ck.extra["exhaustive"] = True
     ck.extra["rule"] = "exhaustive: all 3906 strings of length <= 5 over 5 characters; %d random written specifications over the whole Unicode range; 300 repeated -G command lines. Distinct by case text; all non-trivial." % n
     ck.partial.append("clap's own option parsing is exercised, not modelled; the encoding of the argument dictionary is the codec's (C10)")
